@@ -369,7 +369,19 @@ impl<'c, 'd> Parser<'c, 'd> {
             // We need all parameters to this SpecConstantOp.
             for loperand in g.operands {
                 if loperand.kind != GOpKind::IdResultType && loperand.kind != GOpKind::IdResult {
-                    operands.append(&mut self.parse_operand(loperand.kind)?);
+                    match loperand.quantifier {
+                        GOpCount::One => operands.append(&mut self.parse_operand(loperand.kind)?),
+                        GOpCount::ZeroOrOne => {
+                            if !self.decoder.limit_reached() {
+                                operands.append(&mut self.parse_operand(loperand.kind)?)
+                            }
+                        }
+                        GOpCount::ZeroOrMore => {
+                            while !self.decoder.limit_reached() {
+                                operands.append(&mut self.parse_operand(loperand.kind)?)
+                            }
+                        }
+                    }
                 }
             }
             Ok(operands)
